@@ -169,7 +169,14 @@ func c04UnitSteps(c *Ctx, r *RuleResult, lexT *types.Named) {
 				}
 			}
 			if scr == nil {
-				r.Undecided(st.Pos(), p.FuncName(fn), "unit step without a read of the byte stepped over", "both cursors advance by one but the function does not read Input[end] before: whether a whole character is skipped is not decided")
+				// the byte at the cursor may be known to every caller (a case of the caller's scan handed to a helper): the
+				// step is the first movement of the cursor in this function and every call site lies where the byte read at
+				// the cursor is below 0x80
+				if why := c04EntryByteAscii(p, fn, b, lexT); why != "" {
+					r.OK(site, why)
+					continue
+				}
+				r.Undecided(st.Pos(), p.FuncName(fn), "unit step without a read of the byte stepped over", "both cursors advance by one but neither the function nor its callers read Input[end] before: whether a whole character is skipped is not decided")
 				continue
 			}
 			sets := reachSets(fn, scr.v, scr.in.Block(), ivFull(0xFF))
@@ -310,4 +317,107 @@ func stepperDelta(g *ssa.Function, lexT *types.Named) map[string]int64 {
 		}
 	}
 	return out
+}
+
+// c04EntryByteAscii: block b of helper fn steps over the byte that was at the cursor when fn was entered (no other store
+// to the byte cursor can come before it in fn), and at every call site of fn the caller has read that byte — with no
+// movement of the cursor between the read and the call — and knows it to be below 0x80.
+func c04EntryByteAscii(p *Program, fn *ssa.Function, b *ssa.BasicBlock, lexT *types.Named) string {
+	if fn.Parent() != nil {
+		return ""
+	}
+	movesCursor := func(x *ssa.BasicBlock, before ssa.Instruction) bool {
+		for _, in := range x.Instrs {
+			if in == before {
+				return false
+			}
+			switch y := in.(type) {
+			case *ssa.Store:
+				if fa, ok := y.Addr.(*ssa.FieldAddr); ok {
+					if n, f, _, _ := fieldOf(fa); n != nil && sameNamed(n, lexT) && f == "end" {
+						return true
+					}
+				}
+			case ssa.CallInstruction:
+				if g := y.Common().StaticCallee(); g != nil && p.inModule(g) && len(storesToField([]*ssa.Function{g}, lexT, "end")) > 0 {
+					return true
+				}
+			}
+		}
+		return false
+	}
+	// nothing moves the cursor before the step inside fn
+	for _, x := range fn.Blocks {
+		if x == b {
+			continue
+		}
+		if movesCursor(x, nil) && reachAvoiding(x, nil, nil)[b] {
+			return ""
+		}
+	}
+	calls := callsTo(p.FuncsIn("lexer"), fn)
+	if len(calls) == 0 {
+		return ""
+	}
+	for _, ci := range calls {
+		caller := ci.Parent()
+		cb := ci.Block()
+		// nearest read of Input[end] that dominates the call
+		var scrV ssa.Value
+		var scrIn ssa.Instruction
+		allInstrs(caller, func(in ssa.Instruction) {
+			idx, v, ok := strIndex(in)
+			if !ok || !isByteVal(v) || !isFieldLoad(stripChange(idx), lexT, "end") {
+				return
+			}
+			if dominatesInstr(in, ci) && (scrIn == nil || scrIn.Block().Dominates(in.Block())) {
+				scrV, scrIn = v, in
+			}
+		})
+		if scrV == nil {
+			return ""
+		}
+		// the cursor does not move between the read and the call
+		rb := scrIn.Block()
+		for _, x := range caller.Blocks {
+			if x == rb {
+				continue
+			}
+			var before ssa.Instruction
+			if x == cb {
+				before = ci
+			}
+			if !movesCursor(x, before) {
+				continue
+			}
+			if x == cb || (reachAvoiding(rb, nil, nil)[x] && reachAvoiding(x, func(y *ssa.BasicBlock) bool { return y == rb }, nil)[cb]) {
+				return ""
+			}
+		}
+		if rb == cb {
+			// read and call in one block: no store to the cursor between them
+			seenRead := false
+			for _, in := range cb.Instrs {
+				if in == scrIn {
+					seenRead = true
+				}
+				if in == ssa.Instruction(ci) {
+					break
+				}
+				if st, ok := in.(*ssa.Store); ok && seenRead {
+					if fa, ok := st.Addr.(*ssa.FieldAddr); ok {
+						if n, f, _, _ := fieldOf(fa); n != nil && sameNamed(n, lexT) && f == "end" {
+							return ""
+						}
+					}
+				}
+			}
+		}
+		sets := reachSets(caller, scrV, rb, ivFull(0xFF))
+		set := sets[cb]
+		if len(set) > 0 && set[len(set)-1][1] >= 0x80 {
+			return ""
+		}
+	}
+	return fmt.Sprintf("the byte at the cursor on entry is below 0x80 at each of the %d call site(s), and nothing moves the cursor before this step", len(calls))
 }
